@@ -27,6 +27,11 @@ JOIN_TYPES = ["full", "inner", "left", "right", "left_anti", "right_anti"]
 ON_ATTRS = ["country", "lob", "currency"]          # a top-level attribute, a details key, another attribute
 HEADER = r"""From Bermuda Require Import Model.Select Model.Join.
 From Gen Require Import GenPred.
+Definition o_none : option (list str) := None.
+Definition o_empty : option (list str) := Some [].
+Definition a_country : str := [99;111;117;110;116;114;121].
+Definition a_lob : str := [108;111;98].
+Definition a_currency : str := [99;117;114;114;101;110;99;121].
 Definition code (m s : bool) : nat := if m then (if s then 0 else 2) else (if s then 1 else 3).
 Definition known_jt (jt : str) : bool :=
   str_mem jt [s_full; s_left; s_right; s_inner; s_left_anti; s_right_anti].
@@ -288,8 +293,21 @@ def oracle_pm(t1, t2, sfx, res):
 
 
 # =============================================================================== running + Coq terms
+ANAME = {"country": "a_country", "lob": "a_lob", "currency": "a_currency"}
+JNAME = {"full": "s_full", "inner": "s_inner", "left": "s_left", "right": "s_right",
+         "left_anti": "s_left_anti", "right_anti": "s_right_anti"}
+
+
 def con(on):
-    return "None" if on is None else f"(Some {jc.cstrs(on)})"
+    if on is None:
+        return "o_none"
+    if not on:
+        return "o_empty"
+    return "(Some [" + ";".join(ANAME.get(a) or ct.cstr(a) for a in on) + "])"
+
+
+def cjt(jt):
+    return JNAME.get(jt) or ct.cstr(jt)
 
 
 def call(f):
@@ -325,7 +343,7 @@ class Runner:
             return f"(Err {ct.cerr(res)})"
         return f"(Ok {printer(res)})"
 
-    def join_merge(self, t1, t2, a, b, jt, on, data, do_join=True, do_merge=True):
+    def join_merge(self, t1, t2, a, b, jt, on, data, do_join=True, do_merge=True, coq=True):
         """a, b: Coq terms of the operands; data: JSON-able description for the replay"""
         bm = jc.bermuda()
         cs = self.cases
@@ -335,38 +353,44 @@ class Runner:
             self.ctx.hist(f"join:{jt}" + (":raised" if isinstance(res, BaseException) else ""))
             self.record({**data, "op": "join"}, oracle_join(t1, t2, jt, on, res), nt)
             cs.begin_case()
-            cs.add(f"chk_join {ct.cstr(jt)} {con(on)} {a} {b} {self.res_term(res, self.pairs_term)}",
+            coq and cs.add(f"chk_join {cjt(jt)} {con(on)} {a} {b} {self.res_term(res, self.pairs_term)}",
                    {**data, "op": "join"})
         if do_merge:
             res = call(lambda: t1.merge(t2, join_type=jt, on=on))
             self.ctx.hist(f"merge:{jt}" + (":raised" if isinstance(res, BaseException) else ""))
             self.record({**data, "op": "merge"}, oracle_join(t1, t2, jt, on, res, merged=True), nt)
             cs.begin_case()
-            cs.add(f"chk_merge {ct.cstr(jt)} {con(on)} {a} {b} {self.res_term(res, lambda r: cs.lits(r.cells))}",
+            coq and cs.add(f"chk_merge {cjt(jt)} {con(on)} {a} {b} {self.res_term(res, lambda r: cs.lits(r.cells))}",
                    {**data, "op": "merge"})
 
-    def coalesce(self, ts, terms, data):
+    def coalesce(self, ts, terms, data, coq=True):
         res = call(lambda: ts[0].coalesce(ts[1:]))
         self.ctx.hist("coalesce" + (":raised" if isinstance(res, BaseException) else ""))
         self.record({**data, "op": "coalesce"}, oracle_coalesce(ts, res), sum(len(t) for t in ts) >= 2)
+        if not coq:
+            return
         self.cases.begin_case()
         out = "[]" if isinstance(res, BaseException) else self.cases.lits(res.cells)
         self.cases.add(("1%nat" if isinstance(res, BaseException) else
                         f"chk_coalesce [{';'.join(terms)}] {out}"), {**data, "op": "coalesce"})
 
-    def statics(self, t, src, a, b, fields, data):
+    def statics(self, t, src, a, b, fields, data, coq=True):
         res = call(lambda: t.add_statics(src, statics=fields))
         self.ctx.hist("add_statics" + (":raised" if isinstance(res, BaseException) else ""))
         self.record({**data, "op": "add_statics"}, oracle_statics(t, src, fields, res), len(t) + len(src) >= 2)
+        if not coq:
+            return
         self.cases.begin_case()
         self.cases.add(("1%nat" if isinstance(res, BaseException) else
                         f"chk_statics {jc.cstrs(fields)} {a} {b} {self.cases.lits(res.cells)}"),
                        {**data, "op": "add_statics"})
 
-    def pm(self, t1, t2, a, b, sfx, data):
+    def pm(self, t1, t2, a, b, sfx, data, coq=True):
         res = call(lambda: t1.period_merge(t2, suffix=sfx))
         self.ctx.hist("period_merge" + (":raised" if isinstance(res, BaseException) else ""))
         self.record({**data, "op": "period_merge"}, oracle_pm(t1, t2, sfx, res), len(t1) + len(t2) >= 2)
+        if not coq:
+            return
         self.cases.begin_case()
         s = "None" if sfx is None else f"(Some {ct.cstr(sfx)})"
         self.cases.add(f"chk_pm {s} {a} {b} {self.res_term(res, lambda r: self.cases.lits(r.cells))}",
@@ -380,7 +404,12 @@ def on_variants():
     return out
 
 
-def exhaustive(ctx, run: Runner, basis, ons, do_coalesce_all, masks=32):
+def exhaustive(ctx, run: Runner, basis, full_coq, masks=32):
+    """The REAL operations and the python oracles run on the full product (all pairs x 6 join types x
+    every `on` variant; all triples).  Inside coqc: the full product when `full_coq` (thorough tier);
+    otherwise (quick tier) every pair x every join type with on=None plus ONE rotating other `on`
+    variant per pair (cumulative), a rotating third of that for incremental, and the triples of the
+    16 sub-triangles of the first four cells plus a sample of the others."""
     ul, ur, u3 = universes(basis)
     pre = basis[0]
     cs = run.cases
@@ -396,17 +425,31 @@ def exhaustive(ctx, run: Runner, basis, ons, do_coalesce_all, masks=32):
                            f"{jc.out_cells_term(t.cells, u, pre + 'u' + ('3' if name == 'c' else name))}.", 0))
     cs.shared = shared
     cs._new()
+    ons = on_variants()
+    others = [o for o in ons if o is not None]
+    fls = ([], ["prem"], ["paid", "rep"], ["prem", "paid", "rep", "extra", "nope"])
+    inc = basis == "inc"
     for m1 in range(masks):
         for m2 in range(masks):
             t1, t2 = tris["l", m1], tris["r", m2]
             a, b = f"{pre}l{m1}", f"{pre}r{m2}"
-            for jt in JOIN_TYPES:
-                for on in ons:
-                    run.join_merge(t1, t2, a, b, jt, on, {"basis": basis, "left": m1, "right": m2, "jt": jt, "on": on})
-            for sfx in (None, "_x"):
-                run.pm(t1, t2, a, b, sfx, {"basis": basis, "left": m1, "right": m2, "suffix": sfx})
-            for fields in ([], ["prem"], ["paid", "rep"], ["prem", "paid", "rep", "extra", "nope"]):
-                run.statics(t1, t2, a, b, fields, {"basis": basis, "left": m1, "right": m2, "fields": fields})
+            pid = m1 * masks + m2
+            for ji, jt in enumerate(JOIN_TYPES):
+                for oi, on in enumerate(ons):
+                    if full_coq:
+                        coq = True
+                    elif not inc:
+                        coq = on is None or others[pid % len(others)] == on
+                    else:
+                        coq = (pid + ji) % 3 == 0 and (on is None or others[pid % len(others)] == on)
+                    run.join_merge(t1, t2, a, b, jt, on, {"basis": basis, "left": m1, "right": m2, "jt": jt, "on": on},
+                                   coq=coq)
+            for si, sfx in enumerate((None, "_x")):
+                run.pm(t1, t2, a, b, sfx, {"basis": basis, "left": m1, "right": m2, "suffix": sfx},
+                       coq=full_coq or (not inc) or (pid + si) % 2 == 0)
+            for fi, fields in enumerate(fls):
+                run.statics(t1, t2, a, b, list(fields), {"basis": basis, "left": m1, "right": m2, "fields": list(fields)},
+                            coq=full_coq or (pid + fi) % (4 if inc else 2) == 0)
     # merge t t = t
     for m1 in range(masks):
         t = tris["l", m1]
@@ -414,13 +457,13 @@ def exhaustive(ctx, run: Runner, basis, ons, do_coalesce_all, masks=32):
         same = (not isinstance(res, BaseException)) and jc.canon_seq(res.cells) == jc.canon_seq(t.cells)
         run.record({"basis": basis, "left": m1, "op": "merge_self"}, [] if same else ["merge(t, t) is not t"], len(t) >= 2)
     # coalesce: triples
-    rng = random.Random(ctx.seed * 31 + (1 if basis == "inc" else 0))
-    triples = [(x, y, z) for x in range(masks) for y in range(masks) for z in range(masks)]
-    if not do_coalesce_all:
-        triples = [tr for tr in triples if max(tr) < 16 or rng.random() < 0.06]
-    for x, y, z in triples:
-        run.coalesce([tris["l", x], tris["r", y], tris["c", z]], [f"{pre}l{x}", f"{pre}r{y}", f"{pre}c{z}"],
-                     {"basis": basis, "masks": [x, y, z]})
+    rng = random.Random(ctx.seed * 31 + (1 if inc else 0))
+    for x in range(masks):
+        for y in range(masks):
+            for z in range(masks):
+                coq = full_coq or (max(x, y, z) < 16 and not inc) or rng.random() < (0.03 if not inc else 0.06)
+                run.coalesce([tris["l", x], tris["r", y], tris["c", z]], [f"{pre}l{x}", f"{pre}r{y}", f"{pre}c{z}"],
+                             {"basis": basis, "masks": [x, y, z]}, coq=coq)
     for x in range(0, masks, 5):        # one and two operands
         run.coalesce([tris["l", x]], [f"{pre}l{x}"], {"basis": basis, "masks": [x]})
         run.coalesce([tris["r", x], tris["l", masks - 1 - x]], [f"{pre}r{x}", f"{pre}l{masks - 1 - x}"],
@@ -592,11 +635,9 @@ def correspond(ctx):
     cases = jc.Cases(ctx, "cases", HEADER, per_file_cells=200, per_file_cases=2600)
     cases.codes = True
     run = Runner(ctx, cases)
-    ons = on_variants()
     directed(ctx, run)
-    exhaustive(ctx, run, "cum", ons, do_coalesce_all=True)
-    exhaustive(ctx, run, "inc", ons if not ctx.quick else [None, ["country"], ["lob", "currency"]],
-               do_coalesce_all=not ctx.quick)
+    exhaustive(ctx, run, "cum", full_coq=not ctx.quick)
+    exhaustive(ctx, run, "inc", full_coq=not ctx.quick)
     random_pairs(ctx, run, 60 if ctx.quick else 400)
     ctx.log(f"{run.n} operations, {cases.total()} Coq cases in {len(cases.files)} files; "
             f"python oracles: {len(run.fails)} failing")
